@@ -35,6 +35,7 @@ def parseFeatTok (f : Features) (tok : String) : Option Features :=
   | ['b', c] => (b01 (String.singleton c)).map fun b => { f with bind := b }
   | ['s', c] => (b01 (String.singleton c)).map fun b => { f with sm := b }
   | ['c', c] => (b01 (String.singleton c)).map fun b => { f with csi := b }
+  | ['g', c] => (b01 (String.singleton c)).map fun b => { f with register := b }
   | ['z', 'n'] => some { f with sasl2 := none }
   | ['z', m, b2, fa, sr] =>
     match parseMech m, b01 (String.singleton fa), b01 (String.singleton sr) with
@@ -63,6 +64,9 @@ def parseCfgTok (c : Cfg) (tok : String) : Option Cfg :=
   | ["tok", "2"] => some { c with fastUa := true, token := false }
   | ["nsp", v] => (b01 v).map fun b => { c with nsPlain := b }
   | ["ina", v] => (b01 v).map fun b => { c with inactive := b }
+  | ["reg", "1"] => some { c with registerOnConnect := true, regForm := false }
+  | ["reg", "2"] => some { c with registerOnConnect := true, regForm := true }
+  | ["ar", v] => some { c with autoReconnect := v != "0" }
   | ["ka", v] => some { c with keepAlive := v != "0" }   -- keep-alive interval > 0 (the harness uses an hour and fires the timer itself: `tick`)
   | _ => none
 
@@ -134,12 +138,14 @@ def opEvents (s : St) : List String → Option (List Ev)
   | ["connect"] => some [.connectToServer]
   | ["drop"] =>
     if s.conn = .connected then
-      some ((if s.encrypted then [.socketError, .socketError] else [.socketError]) ++ [.socketDisconnected])
+      some ((if s.encrypted ∧ ¬ s.peerShutdown then [.socketError, .socketError] else [.socketError]) ++ [.socketDisconnected])
     else some []
   | ["sendiq"] => some [.sendIq]
   | "seg" :: rest => ((splitPlus rest).mapM parseEl).map fun es => es.map Ev.recv   -- several elements in ONE read
   | ["ws"] => some [.recvWhitespace]
   | ["tick"] => some [.tick]
+  | ["rtick"] => some [.reconnectTick]
+  | ["closenotify"] => some [.tlsCloseNotify]
   | ["partial"] => some [.recvPartial]
   | ["errclose"] => some (errorThenClose s false)
   | ["redirectclose"] => some (errorThenClose s true)
@@ -182,6 +188,7 @@ def showKind : Kind → String
   | .iqReply e => if e then "IqReply:error" else "IqReply:result"
   | .iqRequest r => if r then "IqRequest:roster" else "IqRequest:other"
   | .ping => "IqRequest:ping"
+  | .register form => if form then "Register:set" else "Register:get"
   | .presence => "Presence"
   | .csiActive => "CsiActive"
   | .csiInactive => "CsiInactive"
